@@ -37,31 +37,42 @@ def _init_worker(repo):
     import tinyflux
     _G["tf"] = tinyflux
     _G["th"] = concretise.Theme()
+    _G["th2"] = type("EmptyMeas", (concretise.Theme,), {"name": "plain+empty-measurement", "meas": [""] + concretise.Theme.meas[1:]})()
+    _G["th2"].check()
+
+
+def _names_measurement(q):
+    if q["k"] in ("not", "and", "or"):
+        return _names_measurement(q["a"]) or (q["k"] != "not" and _names_measurement(q["b"]))
+    return q["k"] == "meas" or q["op"] == "noop"
 
 
 def _eval_chunk(args):
     exprs, univ = args
-    tf, th = _G["tf"], _G["th"]
-    points = [th.point(tf, ap) for ap in univ]
+    tf = _G["tf"]
     out = []
-    cache = {}
-    for e in exprs:
-        q = e["q"]
-        try:
-            rq = th.query(tf, q, cache)
-        except Exception as ex:  # building a well-formed query must not fail
-            out.append((e, -1, None, "build raised %r" % (ex,)))
-            continue
-        tv = e["tv"]
-        for i, p in enumerate(points):
-            exp = (tv[i // 30] >> (i % 30)) & 1
-            try:
-                got = rq(p)
-            except Exception as ex:
-                out.append((e, i, exp, "raised %s: %s" % (type(ex).__name__, ex)))
+    for th in (_G["th"], _G["th2"]):          # second pass: the lowest measurement name is the empty string
+        points = [th.point(tf, ap) for ap in univ]
+        cache = {}
+        for e in exprs:
+            q = e["q"]
+            if th is _G["th2"] and not _names_measurement(q):
                 continue
-            if bool(got) != bool(exp):
-                out.append((e, i, exp, got))
+            try:
+                rq = th.query(tf, q, cache)
+            except Exception as ex:  # building a well-formed query must not fail
+                out.append((e, -1, None, "build raised %r" % (ex,)))
+                continue
+            tv = e["tv"]
+            for i, p in enumerate(points):
+                exp = (tv[i // 30] >> (i % 30)) & 1
+                try:
+                    got = rq(p)
+                except Exception as ex:
+                    out.append((e, i, exp, "raised %s: %s (%s theme)" % (type(ex).__name__, ex, th.name)))
+                    continue
+                if bool(got) != bool(exp):
+                    out.append((e, i, exp, "%r (%s theme)" % (got, th.name)))
     return out
 
 
